@@ -105,3 +105,60 @@ def delayed_reference(ckind, conn, hist, t, dsteps):
     if b is not None:
         out = out + b
     return out.reshape(B, *conn.outshape)
+
+
+def replay_layouts(model):
+    """replays a counter-model of contract Conv2D.layouts on the REAL Conv2D: channel / kernel sizes from the model, every
+    tap and every output position compared with torch's unfold order (row (c*KH + a)*KW + b, column oy*OW + ox)"""
+    import einops as ein
+
+    def g(k, d):
+        try:
+            return max(1, min(int(model.get(k, d)), 4))
+        except Exception:
+            return d
+
+    C, Fn, KH, KW = g("C", 2), g("F", 2), g("KH", 2), g("KW", 3)
+    H, W, dt = 9, 8, 1.0
+    conn = Conv2D(H, W, C, Fn, dt, (KH, KW), synapse=synctor("delta"), delay=4.0, bias=True, batch_size=2)
+    N, L = C * KH * KW, conn.outheight * conn.outwidth
+    rows = torch.arange(N, dtype=torch.float32)
+    cols = torch.arange(L, dtype=torch.float32)
+    want_rows = ein.rearrange(rows, "(c a b) -> c a b", c=C, a=KH, b=KW)  # definition of unfold's row order
+    bad = []
+    # receptive view of a synaptic-layout tensor whose value is rows*1000 + column
+    data = (rows.view(1, N, 1) * 1000 + cols.view(1, 1, L)).expand(2, N, L).contiguous()
+    rec = conn.presyn_receptive(data)
+    exp = (want_rows.view(1, 1, C, KH, KW, 1) * 1000 + cols.view(1, 1, 1, 1, 1, L)).expand(2, 1, C, KH, KW, L)
+    if rec.shape != exp.shape or not torch.equal(rec, exp):
+        bad.append("presyn_receptive: tap (c, a, b) is not row (c*KH + a)*KW + b of the unfolded input")
+    # delay selector: delay[f, c, a, b] = its own row index
+    with torch.no_grad():
+        conn.delay.copy_((want_rows.view(1, C, KH, KW) / max(N, 1) * 3.0).expand(Fn, C, KH, KW))
+    sel = conn.selector
+    if not torch.allclose(sel[0, :, 0, 0], rows / max(N, 1) * 3.0, atol=1e-6):
+        bad.append("selector: the delay of tap (c, a, b) is not at row (c*KH + a)*KW + b")
+    # receptive view of the output
+    out = cols.view(1, 1, conn.outheight, conn.outwidth).expand(2, Fn, conn.outheight, conn.outwidth).contiguous()
+    post = conn.postsyn_receptive(out)
+    if not torch.equal(post.reshape(2, Fn, L)[0, 0], cols):
+        bad.append("postsyn_receptive: output (oy, ox) is not column oy*OW + ox")
+    # forward against conv2d, undelayed and delayed
+    for delayed in (False, True):
+        cn = Conv2D(H, W, C, Fn, dt, (KH, KW), synapse=synctor("delta"), delay=(2.0 if delayed else None), bias=False, batch_size=1)
+        torch.manual_seed(0)
+        with torch.no_grad():
+            cn.weight.copy_(torch.randn_like(cn.weight))
+            if delayed:
+                cn.delay.fill_(0.0)
+        x = (torch.rand(1, C, H, W) < 0.5).float()
+        y = cn(x)
+        cur = cn.synapse.current  # 1 N L, the unfolded synaptic current; overlapping entries are copies of one input value
+        img = F.fold(cur, (H, W), (KH, KW)) / F.fold(torch.ones_like(cur), (H, W), (KH, KW))
+        ref = F.conv2d(img, cn.weight)
+        if y.shape != ref.shape or not torch.allclose(y, ref, atol=1e-4):
+            bad.append(f"forward ({'delayed' if delayed else 'undelayed'}): differs from conv2d of the synaptic current")
+    concrete = {"C": C, "F": Fn, "KH": KH, "KW": KW, "H": H, "W": W}
+    if bad:
+        return {"reproduced": True, "failure": {"what": "Conv2D layout", "detail": bad}, "concrete": concrete}
+    return {"reproduced": False, "concrete": concrete}
